@@ -37,6 +37,8 @@ WRAPPERS = {
     # two (not the outermost) read the same
     "let-inherit": "let\n  inherit (pkgs) lib;\n  v = 1;\nin\nSET\n",
     "let3-alike": "let\n  u = 1;\n  n = 0;\nin\nlet\n  v = 2;\nin\nlet\n  v = 2;\nin\nSET\n",
+    # an attrpath family with several members inside a let layer
+    "let-family": "let\n  z.q = 2;\n  z.r = 3;\n  v = 1;\nin\nSET\n",
     "let-twins": "let\n  x = 0;\n  lib.v = 1;\n  v = 1;\n  w.v = 1;\nin\nSET\n",
 }
 CONTENTS = {
@@ -60,6 +62,10 @@ CONTENTS = {
     "set-and-attrpath-deep": "{\n  s = {\n    k = true;\n  };\n  s.t.u = 4;\n  z = 5;\n}",
     # an attrpath family inside an explicitly written nested set
     "nested-attrpath": "{\n  a = 1;\n  m = {\n    x.y = 1;\n    k = 2;\n  };\n}",
+    # the same family spelled with blanks around the dots (legal Nix for the same paths)
+    "attrpath-spaced": "{\n  a = 1;\n  m . x = 1;\n  m .y = 2;\n}",
+    # ... whose root is called like the set that encloses it (the NixOS `users.users` idiom)
+    "same-name-family": "{\n  users = {\n    users.alice.uid = 1000;\n    users.bob.uid = 1001;\n  };\n  k = 1;\n}",
     "twins": "{\n  z = 0;\n  a.enable = true;\n  b.enable = true;\n  enable = true;\n  m.x = 1;\n}",
     "twins-inline": "{ a.enable = true; b.enable = true; c.enable = true; }",
 }
@@ -69,7 +75,7 @@ PATHS = ["a.enable", "b.enable", "c.enable", "enable", "@lib.v", "@w.v", "a", "b
          "@a", "@@a", "@m.x",
          # later members of deep attrpath families, fresh leaves in them, and the paths a mis-merged tree would answer to
          "m.n.y", "m.y", "m.n.z", "s.n.v.m.b", "s.n.v.m.c", "s.n.v.b", "s.n.w", "@@@u", "s.n.p", "s.h.a",
-         "a.b", "a.x", "s.t.u", "s.k", "s.t", "@lib", "@n", "@@@n", "m.x.y", "m.x.z", "m.k"]
+         "a.b", "a.x", "s.t.u", "s.k", "s.t", "@lib", "@n", "@@@n", "m.x.y", "m.x.z", "m.k", "users.users.alice.uid", "users.users.bob.uid", "users.users.carol.uid", "users.alice", "@z.r", "@z.s", "@z.q", "@z"]
 VALUES = ["2", '"s"', "[ 1 2 ]", "{ k = 1; }", "v", "{", "1 2", ""]
 
 
@@ -82,9 +88,9 @@ def documents(tier):
                 continue
             if c.startswith("twins") and w not in ("bare", "let", "let-twins", "lambda-call", "rec"):
                 continue
-            if (c.startswith("set-and-attrpath") or c == "nested-attrpath") and w not in ("bare", "lambda", "let"):
+            if (c.startswith("set-and-attrpath") or c in ("nested-attrpath", "attrpath-spaced", "same-name-family")) and w not in ("bare", "lambda", "let"):
                 continue
-            if w in ("let-inherit", "let3-alike") and c not in ("flat", "attrpath", "comments", "inline"):
+            if w in ("let-inherit", "let3-alike", "let-family") and c not in ("flat", "attrpath", "comments", "inline"):
                 continue
             if c in ("attrpath-deep4", "attrpath-interleaved") and w not in ("bare", "let", "lambda-call", "rec", "lambda"):
                 continue
@@ -397,6 +403,9 @@ def eval_case(prop, doc_id, text, op, path, value):
 
     if prop == "C08":
         if actual_exc is None:
+            if refuse is not None:
+                # "when set or rm cannot be applied ... it raises": the reasons the statement lists are the model's refusals
+                return f"edit-that-cannot-be-applied-was-accepted:{refuse}"
             return None
         after = src.rebuild()
         if after != before:
@@ -454,6 +463,8 @@ def eval_case(prop, doc_id, text, op, path, value):
     if prop in ("C04", "C09"):
         if out is None or refuse is not None:
             return None
+        if before != text:
+            return None  # the byte-level clause speaks about input in canonical layout
         depth, names = parse_path(path)
         if prop == "C09" and depth == 0:
             return None
